@@ -1130,19 +1130,19 @@ func (c *compiler) compileModify() {
 		&code{op: opforklabel, v: l},            // label $l |
 		&code{op: opload, v: v},                 //
 		&code{op: opfork, v: len(c.codes) + 39}, // [L2]
-		&code{op: oppop},                        // (getpath($p) |
+		&code{op: oppop},                        // setpath($p;
 		&code{op: opexpbegin},
-		&code{op: opload, v: a},
-		&code{op: opload, v: a},
+		&code{op: opload, v: a}, //                 (loaded before f so that an output
+		&code{op: opload, v: v}, //                 of f resumed later updates this value)
+		&code{op: opload, v: p},
+		&code{op: opload, v: a}, //                 getpath($p) |
 		&code{op: opload, v: p},
 		&code{op: opload, v: v},
 		&code{op: opcall, v: [3]any{funcGetpathWithAllocator, 2, "getpath"}},
 		&code{op: opload, v: f}, //                 f)
 		&code{op: opcallpc},
 		&code{op: opexpend},
-		&code{op: opload, v: p}, //                 setpath($p; ...)
-		&code{op: opload, v: v},
-		&code{op: opcall, v: [3]any{funcSetpathWithAllocator, 3, "_setpath"}},
+		&code{op: opcall, v: [3]any{funcSetpathOfModify, 3, "_setpath"}},
 		&code{op: opstore, v: v},
 		&code{op: opload, v: v},                 // ., break $l
 		&code{op: opfork, v: len(c.codes) + 37}, // [L4]
